@@ -48,7 +48,9 @@ SIGNATURES = {}
 DEFINERS = [("A",), ("A", "B"), ("A", "B", "C")]
 TARGETS = ["self", "own_cells", "desc_space", "desc_cells", "ancestor", "out_space", "out_cells"]
 MODES = ["auto", "relative", "absolute"]
-DERIVERS = ["static_bases", "static_add", "item_definer", "item_ancestor", "item_nested"]
+DERIVERS = ["static_bases", "static_add", "item_definer", "item_ancestor", "item_nested", "item_of_sub"]
+WORLDS = ["plain", "prefix", "samename", "samename_top"]
+STATIC = ("static_bases", "static_add", "item_of_sub")
 
 
 def EXHAUSTIVE(tier):
@@ -64,12 +66,19 @@ def plan(tier):
 def enumerate_cases(tier, seed):
     follow = ["none", "reassign", "rebase", "rename", "saveload", "chain_override", "two_bases"]
     n = 0
-    for d, t, m, dv, order in itertools.product(DEFINERS, TARGETS, MODES, DERIVERS, ("ref_first", "deriver_first")):
+    for w, d, t, m, dv, order in itertools.product(WORLDS, DEFINERS, TARGETS, MODES, DERIVERS,
+                                                    ("ref_first", "deriver_first")):
         if dv in ("item_ancestor", "item_nested") and len(d) == 1:
             continue
+        if w in ("samename", "samename_top") and dv not in STATIC:
+            continue        # (the name of the deriving space only matters for static derivation)
+        if w == "samename_top" and len(d) == 1:
+            continue
+        if w == "prefix" and t not in ("out_space", "out_cells"):
+            continue        # (the prefix-named sibling only matters as a target)
         fs = follow
         for f in dict.fromkeys(fs):
-            yield {"definer": list(d), "target": t, "mode": m, "deriver": dv, "order": order, "follow": f}
+            yield {"world": w, "definer": list(d), "target": t, "mode": m, "deriver": dv, "order": order, "follow": f}
         n += 1
 
 
@@ -79,7 +88,38 @@ def strategy(tier):
 
 # ----------------------------------------------------------------------------
 
-def build_world():
+def xpath_of(case):
+    """path of the static deriving space: top-level X, or - world 'samename' - a space named like the definer
+    under an unrelated parent P"""
+    if case.get("world") == "samename":
+        return ("P", case["definer"][-1])
+    if case.get("world") == "samename_top":
+        return (case["definer"][-1],)       # a top-level space named like the (nested) definer
+    return ("X",)
+
+
+def out_path(case):
+    """the outside space used as target: O, or - world 'prefix' - a sibling of the definer whose name starts with
+    the definer's name"""
+    d = tuple(case["definer"])
+    if case.get("world") == "prefix":
+        return d[:-1] + (d[-1] + "2",)
+    return ("O",)
+
+
+def build_world(case=None):
+    m = _build_world()
+    if case is not None and case.get("world") == "prefix":
+        op = out_path(case)
+        parent = obj_at(m, op[:-1]) if op[:-1] else m
+        s2 = parent.new_space(op[-1])
+        s2.new_cells("oc", "lambda: 1")
+    if case is not None and case.get("world") == "samename":
+        m.new_space("P")
+    return m
+
+
+def _build_world():
     m = mx.new_model("W")
     O = m.new_space("O")
     O.new_cells("oc", "lambda: 1")
@@ -108,8 +148,12 @@ def obj_at(m, path):
 CELLS_OF = {("A",): "ac", ("A", "B"): "bc", ("A", "B", "C"): "cc", ("O",): "oc"}
 
 
-def target_path(definer, kind):
+def target_path(definer, kind, case=None):
     d = tuple(definer)
+    if case is not None and kind == "out_space":
+        return out_path(case)
+    if case is not None and kind == "out_cells":
+        return out_path(case) + ("oc",)
     if kind == "self":
         return d
     if kind == "own_cells":
@@ -130,19 +174,35 @@ def expected(case, definer, tpath, mode):
     """(holder path, expected target path | None when not asserted | 'REJECT')"""
     d = tuple(definer)
     dv = case["deriver"]
+    xp = xpath_of(case)
     if dv in ("static_bases", "static_add"):
-        holder = ("X",)
+        holder = xp
         if mode == "absolute":
             return holder, tpath
         if tpath == d:
-            return holder, ("X",)
+            return holder, xp
         if tpath[:-1] == d and tpath[-1] in CELLS_OF.values():
-            return holder, ("X", tpath[-1])
+            return holder, xp + (tpath[-1],)
         if tpath[:len(d)] == d:
             return holder, None             # descendants: not asserted for static derivation
         if mode == "relative":
             return holder, "REJECT"
         return holder, tpath
+    if dv == "item_of_sub":
+        # an ItemSpace of the static sub: first the static rule, then the ItemSpace rule with the sub as root
+        _, e = expected(dict(case, deriver="static_bases"), definer, tpath, mode)
+        holder = xp + (("item", (1,)),)
+        if e is None:
+            # the static sub holds a null object (descendant spaces are not inherited): dangling references are
+            # outside the properties (DESIGN.md 11.2), nothing to assert for its ItemSpaces either
+            return None, None
+        if e == "REJECT":
+            return holder, e
+        if mode == "absolute":
+            return holder, tpath
+        if e[:len(xp)] == xp:
+            return holder, holder + e[len(xp):]
+        return holder, e
     # ItemSpaces: root = the parametrised space instance; inside its base tree -> dynamic counterpart
     if dv == "item_definer":
         rootbase = d
@@ -170,10 +230,14 @@ def setup_deriver(m, case, when):
     d = tuple(case["definer"])
     dv = case["deriver"]
     D = obj_at(m, d)
+    xp = xpath_of(case)
+    xparent = obj_at(m, xp[:-1]) if xp[:-1] else m
     if dv == "static_bases":
-        m.new_space("X", bases=[D])
+        xparent.new_space(xp[-1], bases=[D])
+    elif dv == "item_of_sub":
+        xparent.new_space(xp[-1], bases=[D], formula="lambda i: None")
     elif dv == "static_add":
-        m.X.add_bases(D)        # X was created before, so that a rejected add_bases can be checked for cleanliness
+        obj_at(m, xp).add_bases(D)  # X was created before, so that a rejected add_bases can be checked for cleanliness
     elif dv == "item_definer":
         D.formula = "lambda i: None"
     elif dv == "item_ancestor":
@@ -188,9 +252,10 @@ def run_case(case):
     reset_session()
     tmp = None
     try:
-        m = build_world()
+        m = build_world(case)
         d = tuple(case["definer"])
-        tpath = target_path(d, case["target"])
+        xp = xpath_of(case)
+        tpath = target_path(d, case["target"], case)
         if tpath is None:
             out.discard = True
             return out
@@ -202,7 +267,7 @@ def run_case(case):
         D = obj_at(m, d)
         T = obj_at(m, tpath)
         if case["deriver"] == "static_add":
-            m.new_space("X")
+            (obj_at(m, xp[:-1]) if xp[:-1] else m).new_space(xp[-1])
         steps = ["ref", "deriver"] if case["order"] == "ref_first" else ["deriver", "ref"]
         rejected = None
         desc_before = None
@@ -249,28 +314,41 @@ def run_case(case):
             f = check_binding(m, case, holder, ("O",), "absolute", "after re-assigning to an absolute outside target")
             if f:
                 return out.fail(f[0], f[1])
+            # two different outside objects one after the other in auto mode (they stay what they are)
+            D.set_ref("r", m.O, "auto")
+            f = check_binding(m, case, holder, ("O",), "auto", "after re-assigning to the outside space O in auto mode")
+            if f:
+                return out.fail(f[0], f[1])
+            D.set_ref("r", m.O.oc, "auto")
+            f = check_binding(m, case, holder, ("O", "oc"), "auto", "after re-assigning to the outside cells O.oc in auto mode")
+            if f:
+                return out.fail(f[0], f[1])
             D.set_ref("r", T, mode)
             f = check_binding(m, case, holder, exp, mode, "after assigning the original value again")
             if f:
                 return out.fail(f[0], f[1])
-        elif fol == "rebase" and case["deriver"] in ("static_bases", "static_add"):
-            m.X.remove_bases(D)
-            if "r" in m.X._own_refs:
+        elif fol == "rebase" and case["deriver"] in STATIC:
+            X = obj_at(m, xp)
+            X.remove_bases(D)
+            if "r" in X._own_refs:
                 return out.fail("derived-ref-survives-remove-bases", "%s: X still has r after remove_bases" % fmt(case))
-            m.X.add_bases(D)
+            X.add_bases(D)
             f = check_binding(m, case, holder, exp, mode, "after removing and re-adding the base")
             if f:
                 return out.fail(f[0], f[1])
         elif fol == "rename":
             m.O.new_space("pad")        # an unrelated edit first
-            if case["deriver"] in ("static_bases", "static_add"):
-                m.X.rename("Y")
-                holder2 = ("Y",)
-                exp2 = None if exp is None else tuple("Y" if p == "X" else p for p in exp)
+            if case["deriver"] in STATIC:
+                obj_at(m, xp).rename("Y")
+                yp = xp[:-1] + ("Y",)
+                holder2 = yp + tuple(holder[len(xp):])
+                exp2 = exp
+                if exp is not None and tuple(exp[:len(xp)]) == xp:
+                    exp2 = yp + tuple(exp[len(xp):])
                 f = check_binding(m, case, holder2, exp2, mode, "after renaming the deriving space")
                 if f:
                     return out.fail(f[0], f[1])
-        elif fol == "chain_override" and case["deriver"] in ("static_bases", "static_add"):
+        elif fol == "chain_override" and case["deriver"] in ("static_bases", "static_add") and xp == ("X",):
             # D <- X <- X2: X overrides r with an outside target, X2 is created, the override is deleted again
             m.X.set_ref("r", m.O.oc, "auto")
             m.new_space("X2", bases=[m.X])
@@ -284,7 +362,7 @@ def run_case(case):
             f = check_binding(m, case, ("X2",), exp2, mode, "in X2 after the override in X was deleted")
             if f:
                 return out.fail(f[0], f[1])
-        elif fol == "two_bases" and case["deriver"] in ("static_bases", "static_add"):
+        elif fol == "two_bases" and case["deriver"] in ("static_bases", "static_add") and xp == ("X",):
             # S(B1, D): B1.r points outside; removing B1 makes D the definer of S.r
             B1 = m.new_space("B1")
             B1.set_ref("r", m.O, "auto")
@@ -316,8 +394,8 @@ def run_case(case):
 
 
 def fmt(case):
-    return "definer %s, target %s, mode %s, deriver %s, %s" % (".".join(case["definer"]), case["target"], case["mode"],
-                                                               case["deriver"], case["order"])
+    return "world %s, definer %s, target %s, mode %s, deriver %s, %s" % (
+        case.get("world", "plain"), ".".join(case["definer"]), case["target"], case["mode"], case["deriver"], case["order"])
 
 
 def check_binding(m, case, holder, exp, mode, when):
